@@ -155,6 +155,51 @@ def exact_step_history(args):
     return res
 
 
+def big_record_history(args):
+    """one record far larger than the 1 MiB pre-allocation step of the log file (2.2 - 6 MB: a config value may be 10 MB),
+    then ordinary appends behind it, reads, reopen; optionally a cut right behind the big record"""
+    wd, seed, base = args
+    rnd = random.Random(seed)
+    hwd = os.path.join(wd, "big%d" % seed)
+    os.makedirs(hwd, exist_ok=True)
+    uid = rnd.randrange(1, 10**6) * 1000
+    ops = []
+    k = rnd.randrange(0, 20)
+    idx = 0
+    for _ in range(k):
+        idx, uid = idx + 1, uid + 1
+        ops.append({"op": "append", "index": idx, "term": 1, "uid": uid, "len": rnd.choice([storerig.BLANK, 7, 300, 70000])})
+    big = rnd.randrange(2_200_000, 6_000_000)
+    idx, uid = idx + 1, uid + 1
+    ops.append({"op": "append", "index": idx, "term": 1, "uid": uid, "len": big})
+    big_at = idx
+    for _ in range(rnd.randrange(1, 6)):
+        idx, uid = idx + 1, uid + 1
+        ops.append({"op": "append", "index": idx, "term": 1, "uid": uid, "len": rnd.choice([storerig.BLANK, 5, 900, 1_200_000])})
+    ops.append({"op": "read", "lo": max(1, big_at - 1), "hi": idx + 1})
+    ops.append({"op": "reopen"})
+    if rnd.random() < 0.5:
+        ops.append({"op": "delete_from", "k": big_at + 1})
+        uid += 1
+        ops.append({"op": "append", "index": big_at + 1, "term": 2, "uid": uid, "len": 9})
+        uid += 1
+        ops.append({"op": "append", "index": big_at + 2, "term": 2, "uid": uid, "len": storerig.BLANK})
+        ops.append({"op": "reopen"})
+    h = storerig.History(hwd, ops)
+    res = {"seed": seed, "n_ops": len(ops), "features": ["big-record-%dMB" % (big // 1_000_000)]}
+    try:
+        v = h.run()
+    except storerig.SessionDied as e:
+        res["inconclusive"] = "session died: %s" % e
+        shutil.rmtree(hwd, ignore_errors=True)
+        return res
+    res["stats"] = h.stats
+    if v:
+        res["violation"] = {"signature": "%s/big-record" % v["symptom"], "witness": {"ops": ops, "violation": v, "history_seed": seed, "big_record_bytes": big}}
+    shutil.rmtree(hwd, ignore_errors=True)
+    return res
+
+
 def drive(pid, tier, seed, bias, n_hist, n_ops, n_roll, rule, salt=0):
     common.build()
     wd = common.workdir(pid.lower())
@@ -170,6 +215,7 @@ def drive(pid, tier, seed, bias, n_hist, n_ops, n_roll, rule, salt=0):
             variants = ["batch-ends-at-rollover", "cut-in-closed", "cut-at-closed-file-last", "plain", "cut-in-open", "cut-at-second-file-first"]
             rfuts = [ex.submit(rollover_history, (wd, seed * 100000 + salt + 40000 + i, base, variants[(i + seed + (2 if salt else 0)) % len(variants)])) for i in range(n_roll)]
             xfuts = [ex.submit(exact_step_history, (wd, seed * 100000 + salt + 60000 + i, base, [0, -1, 1][i % 3])) for i in range(3 if tier == "quick" else 30)]
+            xfuts += [ex.submit(big_record_history, (wd, seed * 100000 + salt + 65000 + i, base)) for i in range(3 if tier == "quick" else 24)]
             for f in futs + rfuts + xfuts:
                 results.append(f.result())
         absorb(out, results)
